@@ -5,7 +5,7 @@
     The legal move list is [Rules.legal p].  The engine iterates over its own generated
     list; the ORDER of the list matters in GetMoveFromUci only (it returns the first move
     whose string matches) - and there only if two legal moves had the same UCI string,
-    which NotationProofs.uci_str_inj_on_legal excludes.  GetMoveFromSan counts all matches,
+    which NotationProofs.string_uci_inj excludes.  GetMoveFromSan counts all matches,
     so its result does not depend on the order.
 
     The two regular expressions are matched with Go's regexp (RE2, leftmost-first,
